@@ -422,6 +422,51 @@ Section ReaderContract.
     - exact T.
   Qed.
 
+
+  (* ---------- FINDING: BufferReader accepts container counts with the sign bit set ---------- *)
+  (* LIST<BOOL> with count u >= 2^31 followed by u bytes: int(binary.BigEndian.Uint32(..)) is u on
+     64-bit platforms, the "sz < 0" test is dead, skipn(u) succeeds.  The grammar (and Binary.Skip)
+     reject it as a negative size. *)
+  Lemma brskip_negative_count S c st u tail d :
+    wf S -> At S c st -> drop c S = 2 :: be 4 u ++ tail -> two31 <= u < two32 -> len tail = u ->
+    gparse 15 (drop c S) = Err E_NEGSIZE /\
+    exists st', br_skip_depth st 15 (Datatypes.S d) = (st', Ok tt) /\ r_readlen st' = r_readlen st + (5 + u).
+  Proof.
+    intros W A Hd Hu Ht.
+    assert (Hl : len (drop c S) = 5 + u).
+    { rewrite Hd, len_cons, len_app, be_len, Ht. lia. }
+    assert (Hc : c <= len S) by (rewrite len_drop in Hl; lia).
+    assert (H4 : unbe (take 4 (be 4 u ++ tail)) = u).
+    { replace (take 4 (be 4 u ++ tail)) with (be 4 u).
+      - rewrite unbe_be. apply N.mod_small. apply Hu.
+      - symmetry. apply (take_app_len (be 4 u) tail). }
+    split.
+    { rewrite Hd. unfold gparse. destruct (length (2 :: be 4 u ++ tail)) eqn:E; [discriminate|].
+      cbn [gp]. change (kind_of 15) with KList. cbv iota.
+      rewrite hasn_le, len_app, be_len, Ht. destruct (N.leb_spec 4 (N.of_nat 4 + u)); [|lia].
+      cbv zeta. rewrite H4. destruct (N.leb_spec two31 u); [reflexivity|lia]. }
+    assert (HR : br_rep S c (r_readlen st) st (drop c S)).
+    { exists c. repeat split; try assumption; lia. }
+    unfold br_skip_depth. cbn [brskip].
+    rewrite (tts_ok SBufferReader 15 ltac:(lia)). unfold sret at 1. cbn [sbind].
+    change (0 <? Z.of_N (fixed_width 15))%Z with false.
+    change (is_ty 15 thrift_STRING) with false. change (is_ty 15 thrift_MAP) with false.
+    change (is_ty 15 thrift_LIST || is_ty 15 thrift_SET) with true. cbv iota.
+    unfold br_list_begin.
+    destruct (br_next_ok S c (r_readlen st) st (drop c S) 5 HR ltac:(lia)) as [st1 [E1 HR1]].
+    rewrite E1. cbn [sbind]. rewrite Hd. rewrite hdr_list by (rewrite len_app, be_len, Ht; lia).
+    cbn [sbind]. cbv zeta. rewrite H4.
+    destruct (Z.ltb_spec (Z.of_N u) 0); [exfalso; lia|].
+    rewrite (tts_ok SBufferReader 2 ltac:(lia)). unfold sret. cbn [sbind].
+    change (0 <? Z.of_N (fixed_width 2))%Z with true. cbv iota.
+    change (Z.of_N (fixed_width 2)) with 1%Z. rewrite Z.mul_1_r.
+    destruct (br_skipn_ok S c (r_readlen st) st1 _ u HR1) as [st2 [E2 [c' (A' & Hc' & Hd' & Hl')]]].
+    { rewrite len_drop, Hl. lia. }
+    rewrite E2. exists st2. split; [reflexivity|].
+    rewrite !drop_plus in Hd'.
+    apply (f_equal len) in Hd'. rewrite !len_drop in Hd'. rewrite len_drop in Hl. lia.
+  Qed.
+
   (* ---------- SkipDecoder.Next ---------- *)
   Theorem pk_next_is_ref S c st t d rn0 :
     wf S -> At S c st -> c <= len S -> len S - c < two31 -> t < 256 ->
